@@ -160,11 +160,20 @@ class Model:
             d = dict(c)
             d["id"] = i
             lines.append(json.dumps(d, separators=(",", ":")))
-        try:
-            p = subprocess.run(self.cmd, input=("\n".join(lines) + "\n").encode(), cwd=LEAN,
-                               stdout=subprocess.PIPE, stderr=subprocess.PIPE, timeout=timeout)
-        except subprocess.TimeoutExpired:
-            raise FrameworkError("model driver timed out")
+        p = None
+        for attempt in range(60):
+            try:
+                p = subprocess.run(self.cmd, input=("\n".join(lines) + "\n").encode(), cwd=LEAN,
+                                   stdout=subprocess.PIPE, stderr=subprocess.PIPE, timeout=timeout)
+                break
+            except subprocess.TimeoutExpired:
+                raise FrameworkError("model driver timed out")
+            except (FileNotFoundError, PermissionError, OSError):
+                # another check is rebuilding the driver right now (lake replaces the executable while it links): wait for it
+                import time
+                time.sleep(2)
+        if p is None:
+            raise FrameworkError("model driver executable missing for two minutes (a build that never finished?)")
         if p.returncode != 0:
             raise FrameworkError(f"model driver failed: rc={p.returncode} {p.stderr.decode()[-2000:]}")
         outs = [l for l in p.stdout.decode().split("\n") if l.strip()]
